@@ -127,6 +127,42 @@ pub fn run(ctx: &Ctx) -> i32 {
             Err(_) => {}
         }
     }
+    // ---------------- whole messages: every subset of block-3 tags and of block-5 tags through parse + to_mt_message
+    // (the message-level writer decides on its own whether a block is "empty")
+    {
+        let mut cases: Vec<(String, String, String)> = vec![]; // (block3 text or "", block5 text or "", class)
+        for mask in 0u32..(1 << 13) { let mut t = String::new(); let mut n = 0; for (i, (tag, v, _)) in B3.iter().enumerate() { if mask & (1 << i) != 0 { t.push_str(&format!("{{{tag}:{v}}}")); n += 1; } } if n > 0 { cases.push((format!("{{3:{t}}}"), String::new(), format!("b3-subset-of-{}", n.min(3)))); } }
+        for mask in 1u32..(1 << 8) { let mut t = String::new(); let mut n = 0; for (i, (tag, v)) in B5.iter().enumerate() { if mask & (1 << i) != 0 { match v { Some(v) => t.push_str(&format!("{{{tag}:{v}}}")), None => t.push_str(&format!("{{{tag}}}")) } n += 1; } } cases.push((String::new(), format!("{{5:{t}}}"), format!("b5-subset-of-{}", n.min(3)))); }
+        // the id of another tag followed by ':' inside a value (no brace): still content of the host tag
+        for (hi, (host, _, _)) in B3.iter().enumerate() { if !["108", "115", "424"].contains(host) { continue; } for (oi, (other, ov, _)) in B3.iter().enumerate() { if hi == oi { continue; }
+            for with_other in [false, true] {
+                let mut t = String::new();
+                for (i, (tag, v, _)) in B3.iter().enumerate() { if i == hi { t.push_str(&format!("{{{tag}:A{other}:B}}")); } else if i == oi && with_other { t.push_str(&format!("{{{tag}:{v}}}")); } }
+                let _ = ov; cases.push((format!("{{3:{t}}}"), String::new(), format!("b3-tag-id-in-value:{host}")));
+            } } }
+        for (host, other) in [("CHK", "MAC"), ("MAC", "CHK"), ("PDE", "CHK"), ("MRF", "MAC")] { for with_other in [false, true] {
+            let ov = B5.iter().find(|(t, _)| *t == other).and_then(|(_, v)| *v).unwrap_or("0");
+            let t = format!("{{{host}:A{other}:B}}{}", if with_other { format!("{{{other}:{ov}}}") } else { String::new() });
+            cases.push((String::new(), format!("{{5:{t}}}"), format!("b5-tag-id-in-value:{host}")));
+        } }
+        let accs = par::par_for(cases.len(), 128, mk, |i, a| {
+            let (b3, b5, class) = &cases[i]; a.evals += 1;
+            let msg = format!("{{1:F01BANKBEBBAXXX0000000000}}{{2:I103BANKDEFFXXXXN}}{b3}{{4:\n{}-}}{b5}", body103());
+            let toks_of = |s: &str, b: u8| -> String { match SwiftParser::extract_block(s, b).ok().flatten() { Some(x) => format!("{:?}", block_tokens(&x)), None => "<absent>".into() } };
+            match guarded(|| SwiftParser::parse::<swift_mt_message::messages::MT103>(&msg).map(|m| m.to_mt_message())) {
+                Ok(Ok(out)) => {
+                    // known block-5 tags that the Trailer does not model are judged by the block-level sweep above
+                    let (w3, g3, w5, g5) = (toks_of(&msg, 3), toks_of(&out, 3), toks_of(&msg, 5), toks_of(&out, 5));
+                    if w3 != g3 { a.col.add(format!("C10/message/block3-not-reproduced:{class}"), i as u64, || format!("{w3} -> {g3}"), || json!({"mt": "103", "message": msg})); }
+                    else if w5 != g5 && !["MRF", "PDE", "PDM", "SYS"].iter().any(|t| b5.contains(&format!("{{{t}:"))) { a.col.add(format!("C10/message/block5-not-reproduced:{class}"), i as u64, || format!("{w5} -> {g5}"), || json!({"mt": "103", "message": msg})); }
+                    else { a.buckets.insert(format!("msgsub:{class}")); }
+                }
+                Ok(Err(e)) => a.col.add(format!("C10/message/wellformed-rejected:{class}"), i as u64, || format!("{e}"), || json!({"mt": "103", "message": msg})),
+                Err(_) => {}
+            }
+        });
+        for a in accs { col.merge(a.col); evals += a.evals; buckets.extend(a.buckets); }
+    }
     // ---------------- whole messages: block presence combinations, reproduced blocks
     let b3_full = format!("{{3:{}}}", B3.iter().map(|(t, v, _)| format!("{{{t}:{v}}}")).collect::<String>());
     let b5_full = "{5:{CHK:123456789ABC}{TNG}{DLM}{MAC:00000000}}".to_string();
